@@ -71,6 +71,6 @@ func init() {
 		Prune:      true,
 		Nontrivial: seenKeys,
 		Assumptions: commonAssumptions,
-		Alphabet:    []string{"pod-start/finish(i)", "ds(i)", "cordon/uncordon(i)", "ext-taint(i, 9 values)", "force-taint(i)", "annotate(i)", "burst", "clear-pending", "restart", "stale-view", "skip-settle", "refresh-fails-once", "register-node", "fail/kill at k8s get/update/delete, asg terminate/setdesired/describe"},
+		Alphabet:    []string{"pod-start/finish(i)", "ds(i)", "cordon/uncordon(i)", "pod-start-by-affinity(i)", "ext-taint(i, 11 values)", "force-taint(i)", "annotate(i)", "burst", "clear-pending", "restart", "stale-view", "skip-settle", "refresh-fails-once", "register-node", "fail/kill at k8s get/update/delete, asg terminate/setdesired/describe"},
 	})
 }
